@@ -30,6 +30,12 @@ def offset {α} (r : Res α) (n : Nat) : Res α :=
   | err e => err { e with pos := e.pos + n }
   | r => r
 
+instance {α} (r : Res α) : Decidable r.NoFault :=
+  match r with
+  | ok _ => isTrue trivial
+  | err _ => isTrue trivial
+  | fault _ => isFalse (fun h => h)
+
 @[simp] theorem pure_eq {α} (a : α) : (pure a : Res α) = ok a := rfl
 @[simp] theorem bind_eq {α β} (x : Res α) (f : α → Res β) : (x >>= f) = x.bind f := rfl
 @[simp] theorem bind_ok {α β} (a : α) (f : α → Res β) : (ok a).bind f = f a := rfl
